@@ -630,7 +630,7 @@ func (w *c07World) runCell(st c07Station, c c07Cell, secret []byte) (string, str
 		k := fams[0].kind + "," + fams[1].kind
 		impl = k + ";" + passes[0].parse + ";" + passes[0].evsStr + ";" + passes[0].state + "|" + k + ";" + passes[1].parse + ";" + passes[1].evsStr + ";" + passes[1].state
 	}
-	model := "c07|" + cfgLine + "|" + wire + "|" + wire
+	model := "c07|" + cfgLine + "|" + wire + "|D" // D = the same message again
 
 	w.oracle(st, c, fams, passes, replay)
 	return model, impl
@@ -741,8 +741,9 @@ func (w *c07World) oracle(st c07Station, c c07Cell, fams [2]c07Fam, passes [2]c0
 		}
 		connect := f.reg != nil && passes[0].fam[i].connect
 		out.Checked()
+		dropped := want.admit && !(connect && announced == 1)
 		switch {
-		case want.admit && !(connect && announced == 1):
+		case dropped:
 			sig := "C07:admissible-not-admitted"
 			if passes[0].parse == "err" && fams[1-i].kind != "ok" && fams[i].kind == "ok" {
 				sig = "C07:admissible-family-dropped-with-failing-twin"
@@ -757,7 +758,10 @@ func (w *c07World) oracle(st c07Station, c c07Cell, fams [2]c07Fam, passes [2]c0
 		if want.probe {
 			probesWanted++
 		}
-		if f.reg != nil {
+		if dropped && want.probe {
+			probesWanted-- // the missing probe is part of the failure reported above
+		}
+		if f.reg != nil && !dropped {
 			n, pseq := count(passes[0].evs, 'P', f.reg.PhantomIp.String())
 			out.Checked()
 			if want.probe && n != 1 {
